@@ -14,21 +14,21 @@ func init() {
 	register(&Property{
 		ID:          "C10",
 		Run:         runC10,
-		Explanation: "Decides the structural clauses of failure classification and bounded recovery on every path of the two lifecycle services: (R1) the cleanup goroutine calls recoverPipeline only on the not-fatal (v2: and not-shutting-down, not-intentionally-stopped) edge, writes Degraded only on the fatal edge or after a failed recovery, and writes only a stopped status when the tomb is still alive / after a deliberate stop; (R2) recoverPipeline / StartWithBackoff have closed caller sets; (R3) StartWithBackoff waits and restarts only below the retry bound (exceeding it returns a fatal error), restarts only when the run it belongs to is still the published one, and the attempt counter is touched only by its +1/−1 (no reset); (R4) force stop and exhausted retries are fatal-tagged in both engines and a processor error whose nack fails is fatal in v1; (R5) v2 marks a deliberate stop before it stops any worker and StopAll marks the shutdown before stopping; (R7) a v2 worker kills the tomb with its own error before closing itself and a v1 node goroutine kills it with its own result before nodesWg.Done(), so the root cause (and not a still-alive tomb) decides the classification; (R8) in both engines a run parked in the recovery back-off is not restarted once a stop or a graceful shutdown marked it, and the cleanup goroutine finalizes that as UserStopped / SystemStopped; (R4 also) a failed v1 DLQ write and a v2 processor error whose nack fails are returned as fatal errors.",
+		Explanation: "Decides the structural clauses of failure classification and bounded recovery on every path of the two lifecycle services: (R1) the cleanup goroutine calls recoverPipeline only on the not-fatal (v2: and not-shutting-down, not-intentionally-stopped) edge, writes Degraded only on the fatal edge or after a failed recovery, and writes only a stopped status when the tomb is still alive / after a deliberate stop; (R2) recoverPipeline / StartWithBackoff have closed caller sets; (R3) StartWithBackoff waits and restarts only below the retry bound (exceeding it returns a fatal error), restarts only when the run it belongs to is still the published one, and the attempt counter is touched only by its +1/−1 (no reset); (R4) force stop and exhausted retries are fatal-tagged in both engines and a processor error whose nack fails is fatal in v1; (R5) v2 marks a deliberate stop before it stops any worker and StopAll marks the shutdown before stopping; (R7) a v2 worker kills the tomb with its own error before closing itself and a v1 node goroutine kills it with its own result before nodesWg.Done(), so the root cause (and not a still-alive tomb) decides the classification; (R8) in both engines a run parked in the recovery back-off is not restarted once a stop or a graceful shutdown marked it, and the cleanup goroutine finalizes that as UserStopped / SystemStopped; (R4 also) a failed v1 DLQ write and a v2 processor error whose nack fails are returned as fatal errors. Rules added later (after independent seeded changes and defect hunts) are not all enumerated here: every armed rule is listed with its description, kind and instance count under coverage.rules.",
 		NotDecided:  []string{"which goroutine wins the tomb at run time", "delays and windows (timing)", "the classification of errors produced inside plugins"},
 		Assumptions: []string{"tomb.v2: the first Kill reason is the tomb's error", "cerrors.IsFatalError (C20.R4)"},
 	})
 	register(&Property{
 		ID:          "C11",
 		Run:         runC11,
-		Explanation: "Decides the structural clauses of 'one live run, true result': (R1) a run is published in runningPipelines before the Running status is written, only by runPipeline; (R2) both engines remove the published entry only through compare-and-delete under the publication mutex; (R3) the terminal error is recorded before the entry is removed, Start clears the previous terminal error before running, WaitPipeline consults the live entry first and the terminal error second; (R4) v2 start-up barriers: workers wait for `registered`, the cleanup goroutine waits for `startupDone`, both channels are closed on every path; (R5) the publication mutex guards every write of the map in both engines; (R6) connectors and processors are released at the end of a run (Instance.connector cleared by Teardown, running flag reset on every failing exit of MakeRunnableProcessor); (R7) a second run is refused (running status, live tomb, non-nil Instance.connector); (R9) nodes that Stop waits on publish their stopped state by a defer registered at entry; (R10) a v1 start that fails after the nodes were started un-publishes the run, kills its tomb and joins the nodes on every exit.",
+		Explanation: "Decides the structural clauses of 'one live run, true result': (R1) a run is published in runningPipelines before the Running status is written, only by runPipeline; (R2) both engines remove the published entry only through compare-and-delete under the publication mutex; (R3) the terminal error is recorded before the entry is removed, Start clears the previous terminal error before running, WaitPipeline consults the live entry first and the terminal error second; (R4) v2 start-up barriers: workers wait for `registered`, the cleanup goroutine waits for `startupDone`, both channels are closed on every path; (R5) the publication mutex guards every write of the map in both engines; (R6) connectors and processors are released at the end of a run (Instance.connector cleared by Teardown, running flag reset on every failing exit of MakeRunnableProcessor); (R7) a second run is refused (running status, live tomb, non-nil Instance.connector); (R9) nodes that Stop waits on publish their stopped state by a defer registered at entry; (R10) a v1 start that fails after the nodes were started un-publishes the run, kills its tomb and joins the nodes on every exit. Rules added later (after independent seeded changes and defect hunts) are not all enumerated here: every armed rule is listed with its description, kind and instance count under coverage.rules.",
 		NotDecided:  []string{"absence of deadlock in general", "which interleavings occur"},
 		Assumptions: []string{"csync.Map is a mutex-guarded map", "tomb.v2 semantics"},
 	})
 	register(&Property{
 		ID:          "C12",
 		Run:         runC12,
-		Explanation: "Decides the structural clauses of a clean force stop: (R1) the forceStopper protocol — cancel and stopped are accessed under its mutex, start re-checks stopped after storing cancel, stop records stopped only when no cancel exists yet; (R2) every node type with a ForceStop method delegates to stopper.stop() and obtains its connector context from stopper.start() (no other context.WithCancel(context.Background()) in those types); (R3) both engines kill the tomb with FatalError(ErrForceStop), v1 before it force-stops the nodes, and v2 opens sink and workers with the tomb's own context so the kill reaches blocked plugin calls; (R4) no Message.Ack is reachable from a context-cancellation arm or a failed Send in the stream nodes, the destination acker's teardown only nacks, and a message taken from its queue is put back at the front; (R5 = C11.R6) resources are released so the pipeline can be started again.",
+		Explanation: "Decides the structural clauses of a clean force stop: (R1) the forceStopper protocol — cancel and stopped are accessed under its mutex, start re-checks stopped after storing cancel, stop records stopped only when no cancel exists yet; (R2) every node type with a ForceStop method delegates to stopper.stop() and obtains its connector context from stopper.start() (no other context.WithCancel(context.Background()) in those types); (R3) both engines kill the tomb with FatalError(ErrForceStop), v1 before it force-stops the nodes, and v2 opens sink and workers with the tomb's own context so the kill reaches blocked plugin calls; (R4) no Message.Ack is reachable from a context-cancellation arm or a failed Send in the stream nodes, the destination acker's teardown only nacks, and a message taken from its queue is put back at the front; (R5 = C11.R6) resources are released so the pipeline can be started again. Rules added later (after independent seeded changes and defect hunts) are not all enumerated here: every armed rule is listed with its description, kind and instance count under coverage.rules.",
 		NotDecided:  []string{"that blocked plugin calls actually return when their context is cancelled", "liveness"},
 		Assumptions: []string{"context cancellation propagates to connector plugin calls opened with that context"},
 	})
